@@ -149,3 +149,13 @@ def fill(claim, NA):
 		  "defining expectation and no-better-alternative on grids (labelled tests).",
 		  "Trusted: Lean kernel + 3 axioms; harness; math.sqrt, SciPy ppf/pdf/cdf/brentq, golden-section search (FP). Not proved: continuous newsvendor optimality (only via the "
 		  "critical-ratio residual and grids), unimodality of the exact EOQ-with-disruptions cost, myopic level sets.")
+
+	claim('C08',
+		  "Theorems (Props/C08.lean): serial (Inderfurth) DP for ANY number of stages, processing times, stage-cost tables and external service times: theta_cons, "
+		  "gsm_serial_optimal (no feasible integer CST vector - all net lead times non-negative, demand stage quoting the external outbound CST - is cheaper than the reported optimum), "
+		  "gsm_serial_sound (returned CSTs are feasible and the reported cost equals the safety-stock cost of exactly those CSTs); tree evaluators: inbound_ge_pred, "
+		  "bruteForce_lower_bound (the model's exhaustive optimum bounds every feasible vector in the box). Tie: gsm_serial vs the exact model (cost 1e-9, returned vector re-priced by the "
+		  "model evaluators); gsm_tree on random trees: feasibility and cost of the returned CSTs via the model evaluators, comparison with the model's exhaustive optimum over all integer "
+		  "CST vectors within the max-replenishment-time bounds, relabelled copies, serial-vs-tree agreement.",
+		  "Trusted: Lean kernel + 3 axioms; harness; math.sqrt cost tables (FP); NetworkX. Open: global optimality of the Graves-Willems tree DP is not a theorem (exhaustive "
+		  "comparison per instance on trees <= 6 nodes = labelled test); relabel_nodes correctness is observed through relabelling invariance only.")
